@@ -360,6 +360,66 @@ func c19(p *core.Program, r *core.Report, only string) {
 			r.Fail(R6, "stop signal of the listener", p.Pos(shutdown.Pos()), "Shutdown no longer hands a stop signal to the listener")
 		}
 	}
+	// ---- R7: the manager's "announcement active" flag follows the provider's Unannounce only
+	const R7 = "C19.R7 announcement-flag-cleared-only-by-unannounce"
+	r.Rule(R7, "MdnsManager.isAnnounced is set to false only in a function that calls the provider's Unannounce: the provider keeps a failed announce request and replays it after the daemon is back, while SetAutoAccept and UnannounceMdnsEntry are gated on this flag - clearing it when an announce attempt fails drops every later change of the same outage, and the stale record is what gets announced")
+	if fAnn := p.Field("mdns", "MdnsManager", "isAnnounced"); fAnn == nil {
+		r.Unresolved(R7, "mdns.MdnsManager.isAnnounced")
+	} else {
+		mUn := p.IfaceMethod("api", "MdnsProviderInterface", "Unannounce")
+		// setters of the flag: functions that store their bool parameter into it
+		setters := map[*ssa.Function]int{}
+		for _, fn := range fns {
+			core.EachInstr(fn, func(in ssa.Instruction) {
+				if f, _, v := core.StoredField(in); f == fAnn {
+					if pa, ok := core.Canon(v).(*ssa.Parameter); ok {
+						for i, q := range fn.Params {
+							if q == pa {
+								setters[fn] = i
+							}
+						}
+					}
+				}
+			})
+		}
+		nclear := 0
+		for _, fn := range fns {
+			fn := fn
+			if _, isSetter := setters[fn]; isSetter {
+				continue
+			}
+			callsUn := false
+			core.EachInstr(fn, func(in ssa.Instruction) {
+				if mUn != nil && core.IsInvokeOf(in, mUn) {
+					callsUn = true
+				}
+			})
+			core.EachInstr(fn, func(in ssa.Instruction) {
+				clears := false
+				if f, _, v := core.StoredField(in); f == fAnn && isBoolConst(v, false) {
+					clears = true
+				}
+				if c := core.Common(in); c != nil && c.StaticCallee() != nil {
+					if idx, ok := setters[c.StaticCallee()]; ok && idx < len(c.Args) && isBoolConst(c.Args[idx], false) {
+						clears = true
+					}
+				}
+				if !clears {
+					return
+				}
+				nclear++
+				key := "isAnnounced cleared in " + p.FnName(fn)
+				if callsUn {
+					r.OK(R7, key, p.Pos(in.Pos()), "together with the provider's Unannounce")
+				} else {
+					r.Fail(R7, key, p.Pos(in.Pos()), "the announcement-active flag is cleared without unannouncing at the provider (e.g. on a failed announce): the provider still holds and replays the request, but later SetAutoAccept / UnannounceMdnsEntry calls are ignored")
+				}
+			})
+		}
+		if nclear == 0 {
+			r.Fail(R7, "isAnnounced clear sites", "", "the announcement-active flag is never cleared")
+		}
+	}
 	// ---- R4
 	nlisten := 0
 	for _, fn := range fns {
